@@ -283,6 +283,13 @@ pub(super) mod pktline {
             let length = usize::from_str_radix(length, 16)
                 .map_err(|e| io::Error::new(io::ErrorKind::InvalidInput, e.to_string()))?;
 
+            // Nb. The length is chosen by the remote peer, and includes the header.
+            if length < HEADER_LEN || length > buf.len() {
+                return Err(io::Error::new(
+                    io::ErrorKind::InvalidInput,
+                    format!("invalid packet-line length {length}"),
+                ));
+            }
             self.read_exact(&mut buf[HEADER_LEN..length])?;
 
             Ok(length)
